@@ -53,6 +53,23 @@ def base_type(q):
     return q
 
 
+def array_len(ty):
+    """N of std::array<T, N>, else None"""
+    if ty.startswith('std::array<') or ty.startswith('array<'):
+        try:
+            return int(ty[ty.rindex(',') + 1:ty.rindex('>')].strip().rstrip('UL'))
+        except ValueError:
+            return None
+    return None
+
+
+def elt_type(ty):
+    inner = ty[ty.index('<') + 1:ty.rindex('>')]
+    if array_len(ty) is not None:
+        inner = inner[:inner.rindex(',')]
+    return base_type(inner.strip())
+
+
 class Ref:
     """an lvalue: something that can be read and written"""
     def __init__(self, get, set_):
@@ -62,6 +79,12 @@ class Ref:
 class Iter:
     def __init__(self, lst, i):
         self.lst = lst; self.i = i
+
+
+class Ptr:
+    """a std::shared_ptr handle: copying it shares the pointee"""
+    def __init__(self, obj):
+        self.obj = obj
 
 
 class CppEval:
@@ -190,6 +213,8 @@ class CppEval:
             loopvar = [d for d in inner if d.get('kind') == 'DeclStmt' and not d['inner'][0].get('name', '').startswith('__')][-1]['inner'][0]
             body = inner[-1]
             seq = self.rv(rng['inner'][0]['inner'][0], env)
+            if isinstance(seq, Ptr):
+                seq = seq.obj
             if not isinstance(seq, list):
                 raise Unsupported('range-for over %r' % type(seq).__name__)
             byref = '&' in loopvar['type']['qualType'] and 'const' not in loopvar['type']['qualType']
@@ -244,6 +269,8 @@ class CppEval:
             return False
         if ty.startswith('std::vector'):
             return []
+        if array_len(ty) is not None:
+            return [self.zero_of(elt_type(ty)) for _ in range(array_len(ty))]
         raise Unsupported('default value of %s' % ty)
 
     def convert(self, v, ty):
@@ -290,6 +317,8 @@ class CppEval:
             if op == 'operator*':
                 it = self.rv(n['inner'][1], env)
                 return self._deref(it)
+            if op == 'operator->':
+                return self._deref(self.rv(n['inner'][1], env))
         if k == 'UnaryOperator' and n.get('opcode') == '*':
             return self._deref(self.rv(n['inner'][0], env))
         if k == 'ArraySubscriptExpr':
@@ -310,6 +339,11 @@ class CppEval:
         raise Unsupported('lvalue %s' % k)
 
     def _deref(self, it):
+        if isinstance(it, Ref):
+            it = it.get()
+        if isinstance(it, Ptr):
+            p = it
+            return Ref(lambda: p.obj, lambda x: setattr(p, 'obj', x))
         if not isinstance(it, Iter):
             raise Unsupported('dereference of %s' % type(it).__name__)
         if not 0 <= it.i < len(it.lst):
@@ -528,6 +562,16 @@ class CppEval:
 
     def _x_InitListExpr(self, n, env):
         ty = base_type(n['type'])
+        if array_len(ty) is not None:
+            # std::array<T, N>{...}: an aggregate around T[N]; missing elements are value-initialised
+            items = []
+            for x in n.get('inner', []):
+                if x.get('kind') == 'InitListExpr':
+                    items += [self._copy(self.rv(y, env)) for y in x.get('inner', []) if y.get('kind') and y.get('kind') != 'ImplicitValueInitExpr']
+                elif x.get('kind') and x.get('kind') != 'ImplicitValueInitExpr':
+                    items.append(self._copy(self.rv(x, env)))
+            z = self.zero_of(ty)
+            return items + z[len(items):]
         items = [self._copy(self.rv(x, env)) for x in n.get('inner', [])]
         if ty in FLOAT_TYPES or ty in INT_TYPES or ty == 'bool':
             return items[0] if items else self.zero_of(ty)
@@ -543,6 +587,13 @@ class CppEval:
     def _x_CXXConstructExpr(self, n, env):
         ty = base_type(n['type'])
         args = [x for x in n.get('inner', []) if x.get('kind') and x.get('kind') != 'CXXDefaultArgExpr']
+        if array_len(ty) is not None:
+            if not args:
+                return self.zero_of(ty)
+            v = self.rv(args[0], env)
+            if isinstance(v, list):
+                return self._copy(v)
+            raise Unsupported('constructor of %s' % ty)
         if ty.startswith('std::vector') or ty.startswith('vector'):
             if not args:
                 return []
@@ -562,12 +613,14 @@ class CppEval:
                 return [self._copy(b) for _ in range(self.as_int(a))]
         if len(args) == 1:
             return self._copy(self.rv(args[0], env))
+        if ty.startswith('std::shared_ptr') and not args:
+            return Ptr(None)
         raise Unsupported('constructor of %s' % ty)
     _x_CXXTemporaryObjectExpr = _x_CXXConstructExpr
 
     def _x_CXXOperatorCallExpr(self, n, env):
         op = self._callee_name(n['inner'][0])
-        if op in ('operator[]', 'operator*'):
+        if op in ('operator[]', 'operator*', 'operator->'):
             return self.lv(n, env).get()
         if op == 'operator=':
             ref = self.lv(n['inner'][1], env)
@@ -595,6 +648,8 @@ class CppEval:
         name = m.get('name')
         obj = self.lv_or_rv(m['inner'][0], env)
         lst = obj.get() if isinstance(obj, Ref) else obj
+        if isinstance(lst, Ptr):
+            lst = lst.obj
         args = n['inner'][1:]
         if not isinstance(lst, list):
             raise Unsupported('member call %s on %s' % (name, type(lst).__name__))
@@ -664,6 +719,23 @@ class CppEval:
             for i in range(a.i, b.i):
                 acc = self._arith('+', acc, self.convert(a.lst[i], ty), ty)
             return acc
+        if name == 'make_shared':
+            ty = base_type(n['type'])
+            inner_ty = ty[ty.index('<') + 1:ty.rindex('>')].strip()
+            vals = [self.rv(x, env) for x in args]
+            if inner_ty.startswith('std::vector') or inner_ty.startswith('vector'):
+                if not vals:
+                    return Ptr([])
+                if isinstance(vals[0], list):
+                    return Ptr(self._copy(vals[0]))
+                if isinstance(vals[0], Ptr):
+                    return Ptr(self._copy(vals[0].obj))
+                k = self.as_int(vals[0])
+                fill = self._copy(vals[1]) if len(vals) > 1 else self.zero_of(elt_type(inner_ty))
+                return Ptr([self._copy(fill) for _ in range(k)])
+            if array_len(inner_ty) is not None:
+                return Ptr(self._copy(vals[0]) if vals else self.zero_of(inner_ty))
+            raise Unsupported('make_shared of %s' % inner_ty)
         if name in ('make_tuple', 'make_pair'):
             return tuple(self._copy(self.rv(x, env)) for x in args)
         if name == 'assert' or name == '__assert_fail':
